@@ -234,6 +234,13 @@ where
     job.params = serde_json::json!({"cap_prover": cap_p, "cap_verifier": cap_v, "err_plan": err, "gates": shape.gates(), "padded": shape.padded(), "commitments": shape.commits()});
     let sh = run.shr.borrow();
     job.check("builder ran without API errors", sh.errors.is_empty(), format!("{:?}", sh.errors));
+    if run.proof.is_ok() {
+        job.check(
+            "both roles ran every registered randomized closure exactly once, in registration order",
+            closures_as_registered(shape, &sh.closure_runs_prover) && (run.verdict.is_none() || closures_as_registered(shape, &sh.closure_runs)),
+            format!("prover ran {:?}, verifier ran {:?}, {} registered", sh.closure_runs_prover, sh.closure_runs, shape.phase2.len()),
+        );
+    }
     job.check("prove returns Ok", run.proof.is_ok(), format!("{:?}", run.proof.as_ref().err()));
     let concrete_ok = matches!(run.verdict, Some(Ok(())));
     job.concrete = serde_json::json!({"prove_ok": run.proof.is_ok(), "verify_ok": concrete_ok, "expected_verify_ok": honest});
@@ -337,6 +344,10 @@ fn replay_plain_inner<G: AffineRepr + 'static>(shape: &Shape, err: &ErrPlan, see
     // 2 = the tracked assignment violates something (the proof must be rejected), 3 = it is satisfying
     let sh = shr.borrow();
     let honest = sh.con_vals.iter().all(|v| v.is_zero()) && sh.gates.iter().all(|(l, r, o)| (*l * *r - *o).is_zero());
+    // 4 = a role did not run the registered closures as registered (part of the program was dropped or reordered)
+    if !(closures_as_registered(shape, &sh.closure_runs_prover) && closures_as_registered(shape, &sh.closure_runs)) {
+        return (true, ok, 4);
+    }
     (true, ok, if honest { 3 } else { 2 })
 }
 
